@@ -389,7 +389,7 @@ func (d *dumper) row(rr istructs.IRowReader, q appdef.QName, keepEmpty bool) row
 	rd := rowDump{qname: q}
 	if q == appdef.NullQName {
 		rd.text = "null"
-		rd.coq = "(mkRow 0 0 0 0 true [] MARK)"
+		rd.coq = "(mkRow 0 0 0 0 true [] MARK NILS)"
 		return rd
 	}
 	var id, parent uint64
@@ -437,11 +437,18 @@ func (d *dumper) row(rr istructs.IRowReader, q appdef.QName, keepEmpty bool) row
 	cid, err := d.r.containerID(cont)
 	d.fail(err)
 	rd.text = fmt.Sprintf("%v#%d^%d@%s/%v{%s}", q, id, parent, cont, active, strings.Join(fields, ";"))
-	rd.coq = fmt.Sprintf("(mkRow %d %d %d %d %s [] MARK)", d.qid(q), id, parent, cid, kit.Bool(active))
+	rd.coq = fmt.Sprintf("(mkRow %d %d %d %d %s [] MARK NILS)", d.qid(q), id, parent, cid, kit.Bool(active))
 	return rd
 }
 
-func rowCoq(rd rowDump, mark bool) string { return strings.Replace(rd.coq, "MARK", kit.Bool(mark), 1) }
+// rowCoq fills in the activation mark and the emptied-field marks: CUD rows carry the latter in mkCud (nils = false)
+func rowCoq(rd rowDump, mark, nils bool) string {
+	nl := "[]"
+	if nils {
+		nl = nlist(rd.emptied)
+	}
+	return strings.Replace(strings.Replace(rd.coq, "MARK", kit.Bool(mark), 1), "NILS", nl, 1)
+}
 
 // keepEmpty: list string/bytes fields that were put empty (SpecifiedValues shows them on the builder's
 // object; argument objects are stored without such marks)
@@ -455,7 +462,7 @@ func (d *dumper) object(o istructs.IObject, keepEmpty bool) (text, coq string) {
 			coqs = append(coqs, c)
 		}
 	}
-	return rd.text + "[" + strings.Join(texts, ",") + "]", fmt.Sprintf("(Obj %s %s)", rowCoq(rd, false), kit.List(coqs))
+	return rd.text + "[" + strings.Join(texts, ",") + "]", fmt.Sprintf("(Obj %s %s)", rowCoq(rd, false, true), kit.List(coqs))
 }
 
 type eventDump struct {
@@ -515,7 +522,7 @@ func (r *rig) dump(ev istructs.IDbEvent) (res eventDump, err error) {
 	storedQName := ev.QName()
 	unl := raw.ArgumentUnloggedObject()
 	hasUnl := unl != nil && unl.QName() != appdef.NullQName
-	const nullT, nullC = "null[]", "(Obj (mkRow 0 0 0 0 true [] false) [])"
+	const nullT, nullC = "null[]", "(Obj (mkRow 0 0 0 0 true [] false []) [])"
 	unlT, unlC := nullT, nullC
 	var creates, updates []string
 	var cudTexts []string
@@ -560,7 +567,7 @@ func (r *rig) dump(ev istructs.IDbEvent) (res eventDump, err error) {
 	ev.CUDs(func(c istructs.ICUDRow) bool {
 		rd := d.row(c, c.QName(), true)
 		// the mark is observable on update rows only (IsActivated / IsDeactivated are false on new rows)
-		coq := fmt.Sprintf("(mkCud %s %s)", rowCoq(rd, !c.IsNew() && (c.IsActivated() || c.IsDeactivated())), nlist(rd.emptied))
+		coq := fmt.Sprintf("(mkCud %s %s)", rowCoq(rd, !c.IsNew() && (c.IsActivated() || c.IsDeactivated()), false), nlist(rd.emptied))
 		if c.IsNew() {
 			creates = append(creates, coq)
 			cudTexts = append(cudTexts, "new:"+rd.text)
